@@ -63,6 +63,60 @@ func genClient(c *cf.Case, r *cf.Rng, prop string) {
 		}
 		c.Workload = append(c.Workload, op)
 	}
+	storm := r.Intn(4) == 0
+	if storm {
+		// readers released at the very instant a metadata response reaches the client, reading the broker list
+		// and leaders back-to-back, while responses change the broker set and leaders together
+		if r.Bool() {
+			cfg.MetaRefreshMs = r.Pick(5, 20)
+		}
+		t := c.Cluster.Topics[r.Intn(len(c.Cluster.Topics))]
+		ba := actors
+		nba := r.Range(1, 3)
+		for a := 0; a < nba; a++ {
+			nb2 := r.Range(3, 8)
+			for i := 0; i < nb2; i++ {
+				op := cf.Op{Op: "burst", Actor: ba + a}
+				nr := r.Range(2, 8)
+				for j := 0; j < nr; j++ {
+					switch r.Intn(5) {
+					case 0, 1:
+						op.Args = append(op.Args, "brokers")
+					case 2:
+						op.Args = append(op.Args, fmt.Sprintf("%s:%s:%d", r.PickS("partitions", "writable", "replicas", "isr"), t.Name, r.Intn(len(t.Partitions))))
+					default:
+						op.Args = append(op.Args, fmt.Sprintf("leader:%s:%d", t.Name, r.Intn(len(t.Partitions))))
+					}
+				}
+				c.Workload = append(c.Workload, op)
+			}
+		}
+		ra := ba + nba
+		nref := r.Range(3, 10)
+		for i := 0; i < nref; i++ {
+			op := cf.Op{Op: "refresh", Actor: ra, ThinkUs: int64(r.Pick(2000, 10000, 30000))}
+			if r.Bool() {
+				op.Args = []string{t.Name}
+			}
+			c.Workload = append(c.Workload, op)
+		}
+		at := int64(0)
+		for i := 0; i < nref; i++ {
+			at += int64(r.Range(1000, 40000))
+			f := cf.Fault{When: cf.When{AtUs: at}}
+			// (broker 1 keeps its address: a cluster whose every known address is gone teaches nothing)
+			if nb < 2 || r.Intn(3) == 0 {
+				f.Do, f.Broker = "broker-add", int32(nb+1+i)
+			} else {
+				f.Do, f.Broker, f.N = "broker-readdr", int32(r.Range(2, nb)), 100+i
+			}
+			c.Faults = append(c.Faults, f)
+			nm := r.Range(1, 3)
+			for j := 0; j < nm; j++ {
+				c.Faults = append(c.Faults, cf.Fault{When: cf.When{AtUs: at}, Do: "leader-move", Topic: t.Name, Partition: int32(r.Intn(len(t.Partitions))), To: int32(r.Range(1, nb))})
+			}
+		}
+	}
 	// view changes
 	nv := r.Range(0, 6)
 	for i := 0; i < nv; i++ {
